@@ -82,7 +82,7 @@ pub fn gen_c10(seed: u64, thorough: bool) -> Plan {
         // a replay memory that is organised in generations, or that is refreshed or rotated by other traffic, shows only then
         extra: serde_json::json!({ "kind": kind, "delta": delta, "type": type_byte, "d0": d0, "d": d, "sub_seed": g.next(),
             "seg_first": g.below(4), "seg_copy": g.below(4), "seg_draw": g.next(),
-            "pre": pre, "mid": mid }),
+            "pre": pre, "mid": mid, "udp_history": (round / 71) % 3 }),
     }
 }
 
@@ -277,11 +277,37 @@ pub fn execute_c10(plan: &Plan) -> Outcome {
                     }
                 };
                 let sid = g.next();
-                let pkt = mk(&mut g, sid, 1, (now as i64 + delta) as u64, type_byte, b"udp-probe-tag");
+                // histories: the probed datagram alone on a fresh session, behind a correct datagram of the same session
+                // (a receiver that trusts an established session), or presented twice (a receiver that remembers the session
+                // of a refused datagram)
+                let history = plan.extra["udp_history"].as_u64().unwrap_or(0);
+                let mut pid = 1;
+                if history == 1 {
+                    let first = mk(&mut g, sid, pid, now, 0, b"udp-session-opener");
+                    pid += 1;
+                    let _ = sock.send_to(&first, server_addr()).await;
+                    tokio::time::sleep(Duration::from_millis(300)).await;
+                    let got = log.lock().unwrap().dgrams.iter().any(|d| d == b"udp-session-opener");
+                    obs.push(("correct datagram that opens the session".to_owned(), true, got));
+                }
+                let pkt = mk(&mut g, sid, pid, (now as i64 + delta) as u64, type_byte, b"udp-probe-tag");
                 let _ = sock.send_to(&pkt, server_addr()).await;
                 tokio::time::sleep(Duration::from_millis(300)).await;
                 let got = log.lock().unwrap().dgrams.iter().any(|d| d == b"udp-probe-tag");
-                obs.push((format!("datagram with timestamp offset {delta:+} s, type byte {type_byte}"), delta.abs() <= 30 && type_byte == 0, got));
+                let what = ["alone on a fresh session", "behind a correct datagram of the same session", "first of two presentations"][history.min(2) as usize];
+                obs.push((format!("datagram with timestamp offset {delta:+} s, type byte {type_byte}, {what}"), delta.abs() <= 30 && type_byte == 0, got));
+                if history == 2 && !(delta.abs() <= 30 && type_byte == 0) {
+                    // the refused datagram again, and a sibling of it (next packet id) - neither has become acceptable
+                    let _ = sock.send_to(&pkt, server_addr()).await;
+                    tokio::time::sleep(Duration::from_millis(300)).await;
+                    let again = log.lock().unwrap().dgrams.iter().filter(|d| *d == b"udp-probe-tag").count() > 0;
+                    obs.push((format!("the refused datagram (offset {delta:+} s, type {type_byte}) presented a second time"), false, again));
+                    let sib = mk(&mut g, sid, pid + 1, (now as i64 + delta) as u64, type_byte, b"udp-probe-sibling");
+                    let _ = sock.send_to(&sib, server_addr()).await;
+                    tokio::time::sleep(Duration::from_millis(300)).await;
+                    let got = log.lock().unwrap().dgrams.iter().any(|d| d == b"udp-probe-sibling");
+                    obs.push((format!("another datagram of the refused datagram's session with the same timestamp offset {delta:+} s / type {type_byte}"), false, got));
+                }
                 let sid2 = g.next();
                 let pkt = mk(&mut g, sid2, 1, now, 0, b"udp-control-tag");
                 let _ = sock.send_to(&pkt, server_addr()).await;
